@@ -154,7 +154,12 @@ def fixed_cases():
     for lib in ('dc', 'attrs'):
         for inh in (1, 2):
             for v in ('default', ['int', 9]):
-                # fields declared in a base class come first
+                # fields declared in a base class come first (attrs: also with an attribute that is not set by the constructor)
+                if lib == 'attrs':
+                    yield {'kind': 'class', 'lib': lib, 'frozen': False, 'slots': inh == 2, 'width': 79, 'indent': 4, 'unset_attr': True,
+                           'fields': [{'name': 'a', 'default': ['none'], 'repr': True, 'value': ['int', 1]},
+                                      {'name': 'b', 'default': ['val', ['int', 3]], 'repr': True, 'value': v},
+                                      {'name': 'x', 'default': ['fac', 'list'], 'repr': True, 'value': 'default'}]}
                 yield {'kind': 'class', 'lib': lib, 'frozen': False, 'slots': False, 'width': 79, 'indent': 4, 'inherit': inh,
                        'fields': [{'name': 'a', 'default': ['none'], 'repr': True, 'value': ['int', 1]},
                                   {'name': 'b', 'default': ['val', ['int', 3]], 'repr': True, 'value': v},
@@ -208,7 +213,7 @@ def strategy(tier):
     cls = st.fixed_dictionaries({
         'kind': st.just('class'), 'lib': st.sampled_from(['dc', 'attrs']), 'frozen': st.booleans(), 'slots': st.booleans(),
         'fields': st.lists(field, max_size=5, unique_by=lambda f: f['name']), 'pseudo': pseudo, 'kw_only': st.sampled_from([False, False, False, True]),
-        'inherit': st.sampled_from([0, 0, 1, 2]),
+        'inherit': st.sampled_from([0, 0, 1, 2]), 'unset_attr': st.sampled_from([False, False, True]),
         'width': st.one_of(st.integers(1, 100), st.just(79)), 'indent': st.sampled_from([2, 4]), 'sort': st.booleans()})
     return st.one_of(call_alt, call_plain, cls, cls)
 
@@ -319,7 +324,8 @@ def make_class(case):
     pseudo = case.get('pseudo') or []      # dataclasses only: [kind 'classvar'|'initvar', name, default recipe, changed-to recipe or None]
     inherit = int(case.get('inherit') or 0)        # the first `inherit` fields are declared in a base class
     inherit = inherit if 0 < inherit < len(fields) else 0
-    key = json.dumps([case['lib'], case['frozen'], case['slots'], [[f['name'], f['default'], f['repr'], bool(f.get('kw'))] for f in fields], pseudo, kw_class, inherit], sort_keys=True)
+    key = json.dumps([case['lib'], case['frozen'], case['slots'], [[f['name'], f['default'], f['repr'], bool(f.get('kw'))] for f in fields], pseudo, kw_class, inherit,
+                      bool(case.get('unset_attr')) and case['lib'] == 'attrs'], sort_keys=True)
     name = 'K' + hashlib.blake2b(key.encode(), digest_size=6).hexdigest()
     cls = getattr(dyn, name, None)
     if cls is not None:
@@ -388,6 +394,9 @@ def make_class(case):
                 ref = _self_ref(fields, f)
                 fac = (lambda self, ref=ref: (getattr(self, ref), 1)) if ref else (lambda self: 7)
                 attrs[f['name']] = attr.ib(default=attr.Factory(fac, takes_self=True), repr=f['repr'], **kw)
+        if case.get('unset_attr') and 'lazy_' not in attrs:
+            # computed later, not part of the constructor call: init=False, repr=False, no default, never assigned
+            attrs['lazy_'] = attr.ib(init=False, repr=False)
         if inherit:
             names = list(attrs)
             base = attr.make_class(name + 'Base', {n: attrs[n] for n in names[:inherit]}, frozen=case['frozen'], slots=case['slots'], kw_only=kw_class)
@@ -448,6 +457,16 @@ def oracle_class(case):
         elif differs:
             hidden_off_default = True
     cfg = {'width': case['width'], 'ribbon_width': case['width'], 'indent': case['indent'], 'sort_dict_keys': bool(case.get('sort'))}
+    base = cls.__mro__[1]
+    if base is not object and base.__module__ == 'ppv.dyn':
+        # the base class (leading fields) is printed first: nothing it leaves behind may change how the derived class prints
+        import dataclasses as _dcs
+        import attr as _attr
+        try:
+            names = [f.name for f in _dcs.fields(base)] if _dcs.is_dataclass(base) else [a.name for a in _attr.fields(base)]
+            values.pp(base(**{k: v for k, v in kwargs.items() if k in names}), **cfg)
+        except Exception:
+            pass
     if case['lib'] == 'attrs' and len(fields) > 1 and any(f['default'][0] == 'facself' for f in fields[1:]):
         # another instance of the same class whose computed defaults differ is printed first
         try:
